@@ -21,6 +21,7 @@ type Client struct {
 	connectionString string
 	isAuthenticated  bool
 	conn             net.Conn
+	cipherBlock      cipher.Block
 	encrypter        cipher.BlockMode
 	decrypter        cipher.BlockMode
 }
@@ -34,17 +35,23 @@ func NewClient(config ClientConfig) (*Client, error) {
 	}
 
 	key := createAESKey(config.Key)
-	initIV := newIV()
 	cipherBlock, _ := rijndael256.NewCipher(key[:]) // implementation does not return an error
 
 	// Intitialize the Client structure.
 	c := &Client{
 		config:           config,
 		connectionString: fmt.Sprintf("%s:%d", config.Address, config.Port),
-		encrypter:        cipher.NewCBCEncrypter(cipherBlock, initIV[:]),
-		decrypter:        cipher.NewCBCDecrypter(cipherBlock, initIV[:]),
+		cipherBlock:      cipherBlock,
 	}
+	c.resetCipher()
 	return c, nil
+}
+
+// resetCipher starts both cipher streams from the initial IV as the peer does for every new connection
+func (c *Client) resetCipher() {
+	initIV := newIV()
+	c.encrypter = cipher.NewCBCEncrypter(c.cipherBlock, initIV[:])
+	c.decrypter = cipher.NewCBCDecrypter(c.cipherBlock, initIV[:])
 }
 
 // send message
@@ -114,6 +121,7 @@ func (c *Client) connect() error {
 
 	Log.Infof("successfully connected to %s", conn.RemoteAddr())
 	c.conn = conn
+	c.resetCipher()
 
 	return nil
 }
